@@ -289,6 +289,7 @@ Proof.
   rewrite (cat_get_plain s A tn W).
   destruct (alookup tn (s_cat s)) as [csc|] eqn:EL; [|cbn; auto with c33].
   match goal with |- context [negb (forallb ?F rows)] => destruct (forallb F rows) eqn:EW end; cbn [negb]; [|cbn; auto with c33].
+  destruct (checks_err csc); [cbn; auto with c33|].
   destruct (phase5_err s tn csc); [cbn; auto with c33|].
   destruct (listed_table s A tn csc EL) as [old [ET WD]].
   rewrite (ops_find_plain s A tn W).
@@ -410,7 +411,6 @@ Proof.
       by (apply filter_idx_forall; auto).
     rewrite Forall_forall in WG. specialize (WG r Hr). specialize (HB i Hi).
     destruct (nth_error r i) eqn:EN; [reflexivity|]. apply nth_error_None in EN. lia. }
-  destruct (scan_fails csc csc w rows); [cbn; auto with c33|].
   rewrite NP, andb_false_r.
   destruct (rebuild_after_set_rows s tn csc rows' A EL WD') as [l' [HL HR]]. cbn zeta in HR.
   rewrite HR. cbn [fst snd]. split; auto with c33.
